@@ -1,0 +1,81 @@
+//go:build verif
+
+package kubeeventsmanager
+
+import (
+	corev1 "k8s.io/api/core/v1"
+	"k8s.io/apimachinery/pkg/apis/meta/v1/unstructured"
+)
+
+// Verification-only accessors for property C02 (snapshots). Read-only.
+
+// VerifC02Informer describes one resource informer of a monitor.
+type VerifC02Informer struct {
+	Namespace string
+	Name      string
+	Varying   bool
+	Index     FactoryIndex
+	CacheIDs  []string
+}
+
+// VerifC02Describe lists the static and varying informers of a monitor with their cache keys.
+func VerifC02Describe(mon Monitor) []VerifC02Informer {
+	m, ok := mon.(*monitor)
+	if !ok || m == nil {
+		return nil
+	}
+	res := make([]VerifC02Informer, 0)
+	one := func(ei *resourceInformer, varying bool) {
+		ei.cacheLock.RLock()
+		ids := make([]string, 0, len(ei.cachedObjects))
+		for k := range ei.cachedObjects {
+			ids = append(ids, k)
+		}
+		ei.cacheLock.RUnlock()
+		res = append(res, VerifC02Informer{Namespace: ei.Namespace, Name: ei.Name, Varying: varying, Index: ei.FactoryIndex, CacheIDs: ids})
+	}
+	for _, ei := range m.ResourceInformers {
+		one(ei, false)
+	}
+	m.VaryingInformers.RangeValue(func(value []*resourceInformer) {
+		for _, ei := range value {
+			one(ei, true)
+		}
+	})
+	return res
+}
+
+// VerifC02Store returns the objects currently held by the shared informer (client-go's own store)
+// behind a factory index; ok is false when no such factory exists.
+func VerifC02Store(idx FactoryIndex) ([]*unstructured.Unstructured, bool) {
+	DefaultFactoryStore.mu.Lock()
+	f, ok := DefaultFactoryStore.data[idx]
+	DefaultFactoryStore.mu.Unlock()
+	if !ok {
+		return nil, false
+	}
+	objs := f.shared.ForResource(idx.GVR).Informer().GetStore().List()
+	res := make([]*unstructured.Unstructured, 0, len(objs))
+	for _, o := range objs {
+		if u, ok := o.(*unstructured.Unstructured); ok {
+			res = append(res, u)
+		}
+	}
+	return res, true
+}
+
+// VerifC02NamespaceStore returns the names of the namespaces held by the namespace informer's
+// own store; ok is false when the monitor has no namespace informer.
+func VerifC02NamespaceStore(mon Monitor) ([]string, bool) {
+	m, ok := mon.(*monitor)
+	if !ok || m == nil || m.NamespaceInformer == nil || m.NamespaceInformer.SharedInformer == nil {
+		return nil, false
+	}
+	res := make([]string, 0)
+	for _, o := range m.NamespaceInformer.SharedInformer.GetStore().List() {
+		if ns, ok := o.(*corev1.Namespace); ok {
+			res = append(res, ns.Name)
+		}
+	}
+	return res, true
+}
